@@ -187,9 +187,9 @@ TABLE['C19'] = {
 }
 
 TABLE['C08'] = {
-    'modules': ['contracts.regen', 'contracts.scripts'],
+    'modules': ['contracts.regen', 'contracts.scripts', 'contracts.regencheck'],
     'level': 'other',
-    'explanation': 'history property (edits interleaved with regenerations): outside one-call contracts. What is decided: (proof) BasePath.to_json encodes the directory flag as a trailing separator (the only way from_json can recover it); (bounded, real code) to_json/from_json of PathGlob, NameGlob, FileFilter, FindCache (kinds preserved), RegenerateFiles and the cache-file version gate are identities / refusals as required; find() on real trees equals the reference semantics; push_path records scripts in start order; (bounded, real driver + GNU make) on a generated project with two find_files calls, a submodule and an options file, 12 single edits and 10 edit pairs (all ordered pairs in the thorough tier) each followed by the generated regeneration rule leave Makefile, .bfg_find_deps (as a set), .bfg_find_cache and compile_commands.json identical to a fresh configure, and a second make regenerates nothing; (bounded, real GNU make) the depfile written by find.write_depfile makes the output depend on exactly the searched directories, for directory names with Make-special characters, and survives deletion of a directory',
+    'explanation': 'history property (edits interleaved with regenerations): outside one-call contracts. What is decided: (proof) the skip decision of find_check_cache, for any number of regeneration inputs/outputs and arbitrary cached find results, over an abstract file system: skipped only if the cache is not newer than the build file, no input is newer than any output and every cached result (found and extra) equals the fresh search; fresh results and searched directories are recorded for every cached filter; (proof) BasePath.to_json encodes the directory flag as a trailing separator (the only way from_json can recover it); (bounded, real code) to_json/from_json of PathGlob, NameGlob, FileFilter, FindCache (kinds preserved), RegenerateFiles and the cache-file version gate are identities / refusals as required; find() on real trees equals the reference semantics; push_path records scripts in start order; (bounded, real driver + GNU make) on a generated project with two find_files calls, a submodule and an options file, 12 single edits and 10 edit pairs (all ordered pairs in the thorough tier) each followed by the generated regeneration rule leave Makefile, .bfg_find_deps (as a set), .bfg_find_cache and compile_commands.json identical to a fresh configure, and a second make regenerates nothing; (bounded, real GNU make) the depfile written by find.write_depfile makes the output depend on exactly the searched directories, for directory names with Make-special characters, and survives deletion of a directory',
     'assumptions': ['json.dumps/loads round-trips lists, dicts, strings, booleans and None'],
     'trusted_base': ['PyVC (pyvc/*.py)', 'z3 5.1.0'],
     'not_covered': ['edit histories longer than two steps / other project shapes', 'the ninja backend (no ninja binary in the sandbox)', 'toolchain-file edits'],
@@ -275,13 +275,13 @@ TABLE['C06'] = {
 
 
 TABLE['C10'] = {
-    'modules': ['contracts.faults'],
-    'level': 'exploration',
-    'explanation': 'the property quantifies over crash points between file-system mutations of a whole run: a function contract relates the pre-state of one call to its post-state and has no notion of "killed here", so nothing is proved. The check is bounded fault injection on the real driver, without any change to the repository: the generated regeneration rule is run by GNU make with a launcher that patches open-for-write / close / os.utime / remove / makedirs / rename / replace for paths in the build directory and, at the k-th such event, kills the process (buffered data lost) or raises OSError -- for every k of an uninterrupted run (25 events), two kinds of edit (build.bfg changed; a new file matching find_files) and both fault modes; the next, undisturbed make must then either leave Makefile, .bfg_find_deps and .bfg_find_cache equal to a fresh configure of the edited project or exit non-zero. A build script that raises must leave the previous Makefile byte-identical and fail visibly.',
+    'modules': ['contracts.faults', 'contracts.regencheck'],
+    'level': 'other',
+    'explanation': '(proof, find_check_cache under contract with an abstract file system: for any number of regeneration inputs and outputs and arbitrary cached find results, a lazy regeneration is skipped only if the find cache is not newer than the build file, no input is newer than any output and every cached result equals the fresh search; the depfile is refreshed before skipping.) Beyond that kernel the property quantifies over crash points between file-system mutations of a whole run: a function contract relates the pre-state of one call to its post-state and has no notion of "killed here", so nothing else is proved. The rest of the check is bounded fault injection on the real driver, without any change to the repository: the generated regeneration rule is run by GNU make with a launcher that patches open-for-write / close / os.utime / remove / makedirs / rename / replace for paths in the build directory and, at the k-th such event, kills the process (buffered data lost) or raises OSError -- for every k of an uninterrupted run (25 events), two kinds of edit (build.bfg changed; a new file matching find_files) and both fault modes; the next, undisturbed make must then either leave Makefile, .bfg_find_deps and .bfg_find_cache equal to a fresh configure of the edited project or exit non-zero. A build script that raises must leave the previous Makefile byte-identical and fail visibly.',
     'assumptions': ['a kill is modelled by os._exit at a patched call: files are absent, empty or complete, never partially flushed'],
-    'trusted_base': [],
+    'trusted_base': ['PyVC (pyvc/*.py)', 'z3 5.1.0'],
     'not_covered': ['configure (as opposed to regenerate) interrupted', 'pkg-config / immediate files as outputs of the regeneration step (they are rewritten, but only the three files above are compared)', 'the ninja backend', 'two faults in a row'],
-    'level_text': 'Bounded exploration only (labelled): 2 x 2 x 25 injected faults + 1 failing script. Nothing is proved for this property.',
+    'level_text': 'Partial: one deductive kernel (the skip decision of find_check_cache) plus bounded fault injection (labelled): 2 x 2 x 25 injected faults + 1 failing script.',
     'level_note': 'bounded fault injection; the contract technique does not apply to crash points (DESIGN.md section 6 and 8.3). One genuine defect found and repaired.',
-    'technique': 'bounded fault injection on the real process (stand-in; no deductive obligations)',
+    'technique': 'contract-based proof of the skip decision (PyVC + z3) and bounded fault injection on the real process (stand-in, not counted as proved)',
 }
